@@ -144,13 +144,8 @@ def loop_exits(model, res):
 
 
 def write_func_rule(model, res):
-    from ..rules.common import write_func_shape
-    sh = write_func_shape(model)
-    res.ob("R-PHASE", "write_func: gate, then the call, then has_update = True (only after the call returned)", sh["loc"], ok=sh["order"])
-    if not sh["order"]:
-        res.find("R-PHASE", "broker.market.write_func", "has_update raised before the wrapped call returned", sh["loc"],
-                 "write_func must set has_update only after the wrapped operation returned normally, otherwise a rejected operation "
-                 "triggers a second status refresh")
+    from .base_refs import write_gate
+    write_gate(res, model)
 
 
 def resample_siblings(model, res):
@@ -192,6 +187,34 @@ def set_market_status(self, data, price):
     self._market_status = data
 '''
 
+# before bar 0: the strategy is wired to the broker, data, prices, logs and markets, then initialize() runs; actions made
+# there stay in the per-bar buffer and are delivered by the loop at the end of bar 0 - not here
+REF_INIT_STRATEGY = '''
+def init_strategy(self):
+    if not isinstance(self._strategy, Strategy):
+        raise DemeterError("not a strategy")
+    self._strategy.broker = self._broker
+    self._strategy.markets = self._broker.markets
+    datas = MarketDict()
+    for k in self.broker.markets:
+        datas[k] = self.broker.markets[k].data
+    datas.set_default_key(self.broker.markets.get_default_key())
+    self._strategy.data = datas
+    self._strategy.prices = self._token_prices
+    self._strategy.account_status = self._account_status_list
+    self._strategy.actions = self._action_list
+    self._strategy.assets = self.broker.assets
+    self._strategy.account_status_df = self.account_status_df
+    self._strategy.actuator = self
+    self._strategy.comment_last_action = self.comment_last_action
+    self._strategy.log = self._log
+    for k in self.broker.markets:
+        setattr(self._strategy, k.name, self.broker.markets[k])
+    for k in self.broker.assets:
+        setattr(self._strategy, k.name, self.broker.assets[k])
+    self._strategy.initialize()
+'''
+
 # what the strategy is handed per bar: this bar's timestamp / row id / prices and EVERY market's current status row
 REF_SNAPSHOT = '''
 def __get_snapshot(self, timestamp, row_id, current_price):
@@ -227,6 +250,9 @@ def run(model, tier="quick"):
     for cname, ref in (("GmxMarket", REF_ROW_STATUS), ("SqueethMarket", REF_ROW_STATUS), ("GmxV2Market", REF_ROW_STATUS_ALWAYS)):
         effects_check(res, model, cname + ".set_market_status", ref,
                       "per-bar status: base bookkeeping, the row of THIS bar's timestamp, status stored", ["set_market_status"], rule="R-SIB")
+    effects_check(res, model, "Actuator.init_strategy", REF_INIT_STRATEGY,
+                  "strategy wiring, then initialize(); nothing is delivered to notify() before bar 0 ends",
+                  ["initialize", "notify", "setattr", "set_default_key"], aliases={"broker": "self._broker"}, ordered=True)
     effects_check(res, model, "Actuator.__get_snapshot", REF_SNAPSHOT,
                   "snapshot: this bar's timestamp, row id and prices; every market's current status row; default key kept",
                   ["set_default_key"], aliases={"broker": "self._broker"})
@@ -248,6 +274,8 @@ def run(model, tier="quick"):
     if not ok:
         res.find("R-RECORD", "AccountStatus.to_dataframe", "history index is not the statuses' timestamps", td.loc(),
                  "the account history must carry one row per bar indexed by that bar's timestamp")
+    from ..rules.alias import loop_sharing_rule
+    res.units["objects_built_before_a_loop_and_passed_inside"] = loop_sharing_rule(model, res, scope=() if res.prop == "C19" else ("demeter/core/", "demeter/broker/"))
     from ..rules.fresh import fresh_rule
     if "R-FRESH" not in res.rules:
         res.rules.append("R-FRESH")
